@@ -32,12 +32,18 @@ func cObs(o TextObs) string {
 }
 
 // tags computed from the observed behaviour
-func obsTags(o TextObs) []string {
+func obsTags(o TextObs, texts []c17.PkgText) []string {
 	tags := []string{"outcome:" + o.Stage}
 	if o.Panicked {
 		switch {
 		case strings.Contains(o.Err, "too many") || strings.Contains(o.Err, "too long") || strings.Contains(o.Err, "is invalid") || strings.Contains(o.Err, "invalid type name"):
 			tags = append(tags, "C16-F1:builder-precondition-panic") // fixed 2c1d463a7: a regression
+		case o.Stage == "panic" && o.Err == "no current workspace":
+			tags = append(tags, "C16-F3:role-outside-workspace-panic") // fixed 7ddd85b13: a regression
+		case o.Stage == "panic" && strings.Contains(o.Err, "nil pointer dereference") && hasViewOfJob(texts):
+			tags = append(tags, "C16-F4:view-result-of-job-nil-dereference") // fixed a6c74ddce: a regression
+		case o.Stage == "died" && strings.Contains(o.Err, "stack") && hasFieldSetCycle(texts):
+			tags = append(tags, "C16-F5:field-set-cycle-stack-overflow") // fixed f76fc3ec8: a regression
 		default:
 			tags = append(tags, "panic:other")
 		}
@@ -49,7 +55,14 @@ func obsTags(o TextObs) []string {
 		tags = append(tags, "process-died")
 	}
 	if o.Accepted && !o.Built {
-		tags = append(tags, "build-failed-after-nil-error")
+		switch {
+		case strings.Contains(o.Err, "partition key fields"):
+			tags = append(tags, "C16-F6:view-without-partition-key-refused-by-build") // fixed 55541a167: a regression
+		case strings.Contains(o.Err, "ACL filter") && strings.Contains(o.Err, "has no matches"):
+			tags = append(tags, "C16-F7:grant-matching-nothing-refused-by-build") // fixed 510061369: a regression
+		default:
+			tags = append(tags, "build-failed-after-nil-error")
+		}
 	}
 	if !o.Positioned {
 		if builderRefusal(o) {
@@ -61,6 +74,8 @@ func obsTags(o TextObs) []string {
 	if !o.Deterministic {
 		if o.RuleOrder {
 			tags = append(tags, "C16-F2:acl-rule-order-nondeterministic") // fixed 87b96bf82: a regression
+		} else if o.AppACLOrder {
+			tags = append(tags, "C16-F8:application-acl-order-nondeterministic") // fixed 4db55a7c2: a regression
 		} else {
 			tags = append(tags, "nondeterministic")
 		}
@@ -102,7 +117,7 @@ func runModel(a c17.Schema, kind string, out *kit.Out) *Result {
 	if strings.HasPrefix(kind, "model:valid") {
 		key = fmt.Sprintf("%s p%d len%d", kind, len(a), len(coq)/2000)
 	}
-	out.Emit(kit.Case{Coq: coq, Key: key, Nontrivial: r.Stage == "ok", Desc: desc, Tags: append(obsTags(o), "stream:model", kind)})
+	out.Emit(kit.Case{Coq: coq, Key: key, Nontrivial: r.Stage == "ok", Desc: desc, Tags: append(obsTags(o, withSys(texts)), "stream:model", kind)})
 	return &r
 }
 
@@ -121,7 +136,7 @@ func runText(texts []c17.PkgText, kind string, out *kit.Out, store bool) {
 	}
 	stream := "stream:" + strings.SplitN(kind, ":", 2)[0]
 	out.Emit(kit.Case{Coq: "(TText " + cObs(o) + ")", Key: kind + " " + o.Stage, Nontrivial: o.Stage != "parse", Desc: desc,
-		Tags: append(obsTags(o), stream, "observed-only")})
+		Tags: append(obsTags(o, texts), stream, "observed-only")})
 }
 
 func genText(name string) []c17.PkgText {
@@ -285,7 +300,7 @@ func Generate(seed uint64, n int, tier, corpusDir string, shard int, out *kit.Ou
 			muts := c17.Mutations()
 			malformed++
 			for k := 0; k < len(muts); k++ {
-				if m := muts[(malformed+k)%len(muts)]; c17.MutateKind(cr, a, m) {
+				if m := muts[(malformed*7+k)%len(muts)]; c17.MutateKind(cr, a, m) { // stride 7: a quick run samples the whole list
 					kind = "model:malformed:" + m
 					break
 				}
@@ -319,10 +334,19 @@ func Generate(seed uint64, n int, tier, corpusDir string, shard int, out *kit.Ou
 					break
 				}
 			}
-		case 4, 6: // token-level mutation of a shipped program
+		case 4: // token-level mutation of a shipped program
 			name := progNames[cr.Intn(len(progNames))]
 			texts, kinds := mutateText(cr, progs[name], donors)
 			runText(texts, "text:"+name+":"+kinds, out, true)
+		case 6: // statement-level mutation of a shipped program, or a crafted shape
+			if i%20 == 6 {
+				name := progNames[cr.Intn(len(progNames))]
+				texts, kinds := mutateStatements(cr, progs[name])
+				runText(texts, "text:"+name+":"+kinds, out, true)
+			} else {
+				texts, kind := shapeText(cr, donors)
+				runText(texts, "text:"+kind, out, true)
+			}
 		default: // byte strings
 			s, kind := garbage(cr, donors)
 			texts := withSys([]c17.PkgText{{Path: "github.com/verif/app1", Files: []string{s}}})
